@@ -24,7 +24,8 @@ Guard(g) == g \notin Weak
 
 TLVClasses == {"garbage", "truncated", "overlong_item", "dup_item", "missing_item", "short_enc", "wrong_tag", "empty_body", "unknown_method", "unknown_step", "huge",
                "inner_damaged"}      \* a correctly sealed box whose inner TLV is damaged (missing / mis-sized key, signature, identifier; garbage)
-JSONClasses == {"not_json", "wrong_types", "huge_number", "deep_nesting", "composite_value", "composite_twice", "empty_body", "odd_query"}
+JSONClasses == {"not_json", "wrong_types", "huge_number", "deep_nesting", "composite_value", "composite_twice", "empty_body", "odd_query",
+                "nonfinite_value"}    \* a string that parses to an infinite number or to no number ("-1e999", "NaN") for a float without declared bounds
 Scenarios ==
   [ep : {"pair-setup"}, st : {"fresh", "afterM2", "afterM4"}, cls : TLVClasses]
   \cup [ep : {"pair-verify"}, st : {"fresh", "afterV2"}, cls : TLVClasses]
@@ -48,6 +49,11 @@ Panics ==
   \/ sc.cls \in {"wrong_tag", "garbage"} /\ sc.st \in {"afterM4", "afterV2"} /\ sc.cls = "wrong_tag" /\ ~Guard("aead_failure_answered")
   \/ sc.cls = "composite_twice" /\ sc.ep = "characteristics-put" /\ sc.st = "verified" /\ ~Guard("values_comparable")
 
+\* does this input leave something behind that the accessory cannot serve any more?  A value that cannot be encoded as JSON
+\* (guard nonfinite_values_stay_encodable: such a value is replaced by a finite one when it is stored) makes every later
+\* GET /accessories fail, for every controller.
+Wedges == sc.cls = "nonfinite_value" /\ sc.ep = "characteristics-put" /\ sc.st = "verified" /\ ~Guard("nonfinite_values_stay_encodable")
+
 \* the malformed message is sent
 Send == /\ phase = "send"
         /\ IF Panics
@@ -57,11 +63,12 @@ Send == /\ phase = "send"
                 \* unknown method / step leave the machine where it was (no reset); everything else resets it
                 /\ step' = IF Pairing /\ sc.cls \in {"unknown_method", "unknown_step"} THEN step
                            ELSE IF sc.cls = "twin_closed" THEN "Mid" ELSE "Waiting"
-        /\ phase' = "same" /\ UNCHANGED <<sc, alive, rejected, sameOK, newOK>>
+        /\ alive' = (alive /\ ~Wedges)
+        /\ phase' = "same" /\ UNCHANGED <<sc, rejected, sameOK, newOK>>
 
 \* a correct handshake on the same connection: a start in mid-exchange is rejected once and resets the machine
 Same == /\ phase = "same"
-        /\ IF ~open \/ ~Pairing THEN sameOK' = open /\ UNCHANGED <<step, rejected>> /\ phase' = "new"
+        /\ IF ~open \/ ~Pairing THEN sameOK' = (open /\ alive) /\ UNCHANGED <<step, rejected>> /\ phase' = "new"
            ELSE IF step = "Mid" THEN step' = "Waiting" /\ rejected' = rejected + 1 /\ UNCHANGED <<sameOK, phase>>
            ELSE sameOK' = TRUE /\ UNCHANGED <<step, rejected>> /\ phase' = "new"
         /\ UNCHANGED <<sc, alive, open, reply, newOK>>
